@@ -783,6 +783,105 @@ __published:
 };
 """)
 
+# ------------------------------------------------------- constructed hash collisions
+def hash_string(name, shift_offset):
+    """Transcription of InterrogateBuilder::hash_string (interrogateBuilder.cxx).  Used only to
+    CHOOSE inputs; whether a constructed group really collides is read off the wrapper names
+    the real tool produces."""
+    h = 0
+    shift = 0
+    for c in name.encode("latin-1"):
+        sc = (c << shift) & 0xffffff
+        if shift > 16:
+            sc |= (c >> (24 - shift)) & 0xff
+        h = (h + sc) & 0xffffff
+        shift = (shift + shift_offset) % 24
+    prod = h * 4999
+    h = (prod ^ (prod >> 24)) & 0xffffff
+    out = ""
+    for _ in range(4):
+        v = h & 0x3f
+        h >>= 6
+        out += chr(65 + v) if v < 26 else chr(97 + v - 26) if v < 52 else chr(48 + v - 52) if v < 62 else "_"
+    return out
+
+
+class CGroup:
+    """A set of functions whose signatures share the primary 24-bit hash.
+    members: [(identifier, signature text, declaration text)] in canonical order."""
+
+    def __init__(self, name, form, members, prelude="", open="", close="", eqsec=False):
+        self.name, self.form, self.members = name, form, members
+        self.prelude, self.open, self.close, self.eqsec = prelude, open, close, eqsec
+
+    def render(self, order=None):
+        idx = list(order) if order is not None else list(range(len(self.members)))
+        return self.prelude + self.open + "".join(self.members[i][2] for i in idx) + self.close
+
+    def header(self, order=None):
+        return "#ifndef VF_GROUP_H\n#define VF_GROUP_H\n" + self.render(order) + "#endif\n"
+
+    def predicted(self):
+        return [(hash_string(m[1], 5), hash_string(m[1], 11)) for m in self.members]
+
+
+def _pairs5(n, c0="a", c1="p"):
+    # +2 on a character whose shift is s, -1 on the character five positions later (shift s+1)
+    return [(chr(ord(c0) + 2 * t), chr(ord(c1) - t)) for t in range(n)]
+
+
+def collision_groups():
+    """The additive structure of the hash solved directly: the character at position i is
+    added rotated by 5*i mod 24 bits, so (+2 at i, -1 at i+5) keeps the primary sum and
+    changes the secondary one (rotation 11*i), while (+1 at i, -1 at i+24) keeps both."""
+    gs = []
+    mem = []
+    for a, b in _pairs5(5):
+        n = "zq_%sxxxx%s" % (a, b)
+        mem.append((n, n + "(int)", "inline int %s(int a) { return a + %d; }\n" % (n, len(mem))))
+    gs.append(CGroup("free5", "free functions", mem, open="__begin_publish\n", close="__end_publish\n"))
+    # equal secondary hash as well: first, third and fourth member agree in both hashes
+    mem = []
+    for a, b, c in (("a", "p", "m"), ("c", "o", "m"), ("b", "p", "l"), ("c", "p", "k")):
+        n = "zr_%sxxxx%s%s%s_end" % (a, b, "y" * 18, c)
+        mem.append((n, n + "(int)", "inline int %s(int a) { return a + %d; }\n" % (n, len(mem))))
+    gs.append(CGroup("eqsec4", "free functions, three with equal secondary hash", mem,
+                     open="__begin_publish\n", close="__end_publish\n", eqsec=True))
+    mem = []
+    for a, b in _pairs5(4):
+        n = "zs_%sxxxx%s" % (a, b)
+        mem.append((n, "ZsCls::%s() const" % n, "  int %s() const { return %d; }\n" % (n, len(mem))))
+    gs.append(CGroup("meth4", "methods of one class", mem,
+                     open="class ZsCls {\n__published:\n  ZsCls() {}\n", close="};\n"))
+    mem = []
+    pre = ""
+    for a, b in _pairs5(3):
+        n = "Zt_%sxxxx%s" % (a, b)
+        pre += "class %s {\n__published:\n  %s() {}\n};\n" % (n, n)
+        mem.append((n, "ZtOv::ov(%s *) const" % n, "  int ov(%s *p) const { return %d; }\n" % (n, len(mem))))
+    gs.append(CGroup("ovl3", "overloads of one name", mem, prelude=pre,
+                     open="class ZtOv {\n__published:\n  ZtOv() {}\n", close="};\n"))
+    for g in gs:
+        pr = g.predicted()
+        assert len(set(x[0] for x in pr)) == 1, (g.name, pr)
+    return gs
+
+
+def group_orders(g):
+    """(k, order) for every prefix size k >= 2: all permutations for k <= 4, rotations for k = 5."""
+    import itertools
+    out = []
+    for k in range(2, len(g.members) + 1):
+        if k <= 4:
+            out += [(k, p) for p in itertools.permutations(range(k))]
+        else:
+            out += [(k, tuple((i + r) % k for i in range(k))) for r in range(k)]
+    return out
+
+
+for _g in collision_groups():
+    atom("collide_" + _g.name, "nasty", _g.render())
+
 ATOM_BY_NAME = {a.name: a for a in ATOMS}
 GROUPS = {}
 for _a in ATOMS:
